@@ -21,7 +21,7 @@ SPELL = {
 
 
 def build(case, seed=0):
-    rnd = random.Random(f"settings:{seed}:{sorted(case['present'])}:{case['chan']}:{case['fname']}")
+    rnd = random.Random(f"settings:{seed}:{sorted(case['present'])}:{case['chan']}:{case['fname']}:{case.get('ent')}")
     tag = rnd.randint(100, 999)
     vals = {
         "title": f"Title atom {tag}", "id": f"id_atom_{tag}", "version": f"ver{tag}", "name": f"rootnm{tag}",
@@ -36,11 +36,14 @@ def build(case, seed=0):
     sheets = [{"name": "survey", "header": ["type", "name", "label"], "rows": [["text", "q1", "Q1"], ["integer", "q2", "Q2"]]}]
     if present:
         sheets.append({"name": "settings", "header": hdr, "rows": [[vals[k] for k in present]]})
+    if case.get("ent"):
+        sheets.append({"name": "entities", "header": ["dataset", "label"], "rows": [["people", "${q1}"]]})
     stem = f"stem{tag}"
     fname = f"argname{tag}" if case["fname"] else ""
     src = {"vals": [[k, vals[k]] for k in present if k != "omit_id"] + ([["omit_id", "yes"]] if "omit_id" in present else []),
-           "chan": case["chan"], "stem": stem, "fname": fname, "ns_uri": NS_URI,
-           "namespaces": [f"exns={NS_URI}"] if "namespaces" in present else [], "std_ns": STD_NS}
+           "chan": case["chan"], "stem": stem, "fname": fname, "ns_uri": NS_URI, "ent": bool(case.get("ent")),
+           "namespaces": [f"exns={NS_URI}"] if "namespaces" in present else [],
+           "std_ns": STD_NS + (["entities=http://www.opendatakit.org/xforms/entities"] if case.get("ent") else [])}
     return {"sheets": sheets}, src
 
 
